@@ -15,6 +15,7 @@ import (
 	"github.com/elnosh/gonuts/cashu/nuts/nut05"
 	"github.com/elnosh/gonuts/cashu/nuts/nut07"
 
+	"verif/harness/httpx"
 	"verif/harness/lnmodel"
 	"verif/harness/rec"
 	"verif/harness/world"
@@ -39,6 +40,8 @@ type script struct {
 	// ViaCLN: the mint reaches the Lightning model through the repository's Core Lightning adapter (harness/clnfacade)
 	ViaCLN bool `json:"via_cln,omitempty"`
 	ViaLND bool `json:"via_lnd,omitempty"`
+	// ViaHTTP: the requests go through the mint's HTTP handler and the answers are read from its JSON
+	ViaHTTP bool `json:"via_http,omitempty"`
 }
 
 func (s script) String() string {
@@ -139,12 +142,83 @@ func afterLookup(a lnmodel.StatusAnswer, inMelt bool) []st {
 }
 
 type runner struct {
-	viaLND bool
-	viaCLN bool
+	viaLND  bool
+	viaCLN  bool
+	viaHTTP bool // melt, quote polls and state checks go through the HTTP handler
 	t      *testing.T
 	w      *world.World
 	used   int
 	seedNo uint64
+}
+
+// meltResult is what the runner reads from a melt or quote answer, whichever way it travelled.
+type meltResult struct {
+	State    nut05.State
+	Preimage string
+}
+
+func (r *runner) httpJSON(w *world.World, method, path string, body any, into any) error {
+	var raw []byte
+	ct := ""
+	if body != nil {
+		raw, _ = json.Marshal(body)
+		ct = "application/json"
+	}
+	resp := httpx.Do(w.Handler(), method, path, raw, ct)
+	if resp.Panic != nil {
+		return fmt.Errorf("handler panic: %v", resp.Panic)
+	}
+	if resp.Status != 200 {
+		return fmt.Errorf("HTTP %d %s", resp.Status, resp.Body)
+	}
+	return json.Unmarshal(resp.Body, into)
+}
+
+func stateOf(s string) nut05.State {
+	switch s {
+	case "PAID":
+		return nut05.Paid
+	case "PENDING":
+		return nut05.Pending
+	case "UNPAID":
+		return nut05.Unpaid
+	}
+	return nut05.Unknown
+}
+
+func (r *runner) meltTokens(w *world.World, quote string, inputs cashu.Proofs) (meltResult, error) {
+	if !r.viaHTTP {
+		res, err := w.Mint.MeltTokens(ctxBg(), nut05.PostMeltBolt11Request{Quote: quote, Inputs: inputs})
+		return meltResult{res.State, res.Preimage}, err
+	}
+	var doc struct {
+		State    string `json:"state"`
+		Preimage string `json:"payment_preimage"`
+	}
+	err := r.httpJSON(w, "POST", "/v1/melt/bolt11", nut05.PostMeltBolt11Request{Quote: quote, Inputs: inputs}, &doc)
+	return meltResult{stateOf(doc.State), doc.Preimage}, err
+}
+
+func (r *runner) meltQuoteState(w *world.World, quote string) (meltResult, error) {
+	if !r.viaHTTP {
+		res, err := w.Mint.GetMeltQuoteState(ctxBg(), quote)
+		return meltResult{res.State, res.Preimage}, err
+	}
+	var doc struct {
+		State    string `json:"state"`
+		Preimage string `json:"payment_preimage"`
+	}
+	err := r.httpJSON(w, "GET", "/v1/melt/quote/bolt11/"+quote, nil, &doc)
+	return meltResult{stateOf(doc.State), doc.Preimage}, err
+}
+
+func (r *runner) proofStates(w *world.World, ys []string) ([]nut07.ProofState, error) {
+	if !r.viaHTTP {
+		return w.Mint.ProofsStateCheck(ys)
+	}
+	var doc nut07.PostCheckStateResponse
+	err := r.httpJSON(w, "POST", "/v1/checkstate", nut07.PostCheckStateRequest{Ys: ys}, &doc)
+	return doc.States, err
 }
 
 func (r *runner) world() *world.World {
@@ -153,7 +227,7 @@ func (r *runner) world() *world.World {
 			r.w.Close()
 		}
 		r.seedNo++
-		r.w = world.New(r.t, world.Config{CaseSeed: 5000 + r.seedNo, FeeMode: lnmodel.FeePercent, FeePpk: 100, ViaCLN: r.viaCLN, ViaLND: r.viaLND})
+		r.w = world.New(r.t, world.Config{CaseSeed: 5000 + r.seedNo, FeeMode: lnmodel.FeePercent, FeePpk: 100, ViaCLN: r.viaCLN, ViaLND: r.viaLND, WithServer: r.viaHTTP})
 		r.used = 0
 	}
 	r.used++
@@ -264,7 +338,7 @@ func (r *runner) run(sc script) (viol []violation, lookups int) {
 			w.LN.StatusScript = []lnmodel.StatusAnswer{first}
 		}
 		w.LN.ErrTruth = lnmodel.TruthNone
-		res, err := w.Mint.MeltTokens(ctxBg(), nut05.PostMeltBolt11Request{Quote: q.ID, Inputs: inputs})
+		res, err := r.meltTokens(w, q.ID, inputs)
 		w.LN.PayScript, w.LN.StatusScript = nil, nil
 		if prev.q != U || prev.i != free {
 			// refused, unchanged
@@ -312,12 +386,12 @@ func (r *runner) run(sc script) (viol []violation, lookups int) {
 		var err error
 		if e.Path == "quote" {
 			var r2 any
-			mqs, e2 := w.Mint.GetMeltQuoteState(ctxBg(), q.ID)
+			mqs, e2 := r.meltQuoteState(w, q.ID)
 			r2, err, respQ = mqs, e2, mqs.State
 			_ = r2
 		} else {
 			var ps []nut07.ProofState
-			ps, err = w.Mint.ProofsStateCheck(ys)
+			ps, err = r.proofStates(w, ys)
 			if err == nil && len(ps) == 1 {
 				respP = ps[0].State
 			}
@@ -451,7 +525,7 @@ func scriptsVia(t *testing.T, adapter string) {
 	if n == 0 {
 		n = 1
 	}
-	r := &runner{t: t, viaCLN: adapter == "cln", viaLND: adapter == "lnd"}
+	r := &runner{t: t, viaCLN: adapter == "cln", viaLND: adapter == "lnd", viaHTTP: adapter == "http"}
 	defer func() {
 		if r.w != nil {
 			r.w.Close()
@@ -462,7 +536,7 @@ func scriptsVia(t *testing.T, adapter string) {
 		if i%n != shard {
 			continue
 		}
-		sc.ViaCLN, sc.ViaLND = adapter == "cln", adapter == "lnd"
+		sc.ViaCLN, sc.ViaLND, sc.ViaHTTP = adapter == "cln", adapter == "lnd", adapter == "http"
 		viol, lookups := r.run(sc)
 		rec.Eval()
 		if lookups >= 1 {
@@ -495,6 +569,10 @@ func TestScriptsViaCLN(t *testing.T) { scriptsVia(t, "cln") }
 // and grpc status errors, a payment that stays in flight as a context deadline).
 func TestScriptsViaLND(t *testing.T) { scriptsVia(t, "lnd") }
 
+// TestScriptsViaHTTP: likewise with the melt, the quote polls and the state checks sent through the mint's HTTP
+// handler and the answers read from its JSON (the handler layer must not change or withhold what the mint concludes).
+func TestScriptsViaHTTP(t *testing.T) { scriptsVia(t, "http") }
+
 // TestReplay re-runs one saved script (VERIF_REPLAY=<case json>).
 func TestReplay(t *testing.T) {
 	path := os.Getenv("VERIF_REPLAY")
@@ -511,7 +589,7 @@ func TestReplay(t *testing.T) {
 	if err := json.Unmarshal(raw, &doc); err != nil {
 		t.Fatal(err)
 	}
-	r := &runner{t: t, viaCLN: doc.Replay.ViaCLN, viaLND: doc.Replay.ViaLND}
+	r := &runner{t: t, viaCLN: doc.Replay.ViaCLN, viaLND: doc.Replay.ViaLND, viaHTTP: doc.Replay.ViaHTTP}
 	viol, _ := r.run(doc.Replay)
 	if r.w != nil {
 		r.w.Close()
